@@ -22,7 +22,8 @@ def f64(x):
 
 
 class Experiment:
-    def __init__(self, seed, datatype='I', instruments=1, scatter_gain=None, wide=0):
+    def __init__(self, seed, datatype='I', instruments=1, scatter_gain=None, wide=0, mixed_res=False):
+        self.mixed_res = mixed_res
         self.dir = tempfile.mkdtemp(prefix='verif_xl_')
         self.r = np.random.RandomState(seed % (1 << 31))
         self.datatype = datatype
@@ -59,19 +60,23 @@ class Experiment:
         cols += [fsc, ssc]
         pop = np.repeat(np.arange(5), n // 5 + 1)[:n]
         r.shuffle(pop)
+        chres = []
         for k, c in enumerate(d['fl']):
             if kind == 'beads':
                 centers = np.array([300., 440., 580., 720., 860.]) - 15 * k    # channel numbers on a 4-decade log amplifier
                 v = centers[pop] + r.normal(0, 6, n)
             else:
                 v = r.normal(400 + 80 * (k % 4) + 15 * (k // 4), 60, n)
-            v = np.clip(v, 0, res - 1)
+            # the second fluorescence channel of cell samples is an 8-bit detector (resolution 256): result tables mix resolutions
+            rc = 256 if (kind != 'beads' and k == 1 and self.mixed_res) else res
+            chres.append(rc)
+            v = np.clip(v * (rc / float(res)), 0, rc - 1)
             if kind != 'beads':
-                v[:3] = [0, res - 1, res - 1]          # saturated events (inside the part the start/end trim drops)
+                v[:3] = [0, rc - 1, rc - 1]            # saturated events (inside the part the start/end trim drops)
                 if n > 420:
                     # ... and saturated events that survive the trim, at other places for every channel
                     j = 300 + 6 * k
-                    v[j:j + 4] = [0, res - 1, res - 1, 0]
+                    v[j:j + 4] = [0, rc - 1, rc - 1, 0]
             cols.append(v)
         tcol = np.sort(r.uniform(0, 900, n))
         if time_order == 'wrap':
@@ -114,7 +119,7 @@ class Experiment:
         if self.scatter_gain:
             extra += [['$P1G', str(self.scatter_gain)], ['$P2G', str(self.scatter_gain)]]
         spec = {'version': 'FCS3.0', 'delim': '/', 'datatype': self.datatype, 'byteord': '1,2,3,4', 'widths': widths,
-                'ranges': [res] * D, 'events': ev, 'names': names, 'pne': pne, 'extra': extra}
+                'ranges': [res, res] + chres + [res], 'events': ev, 'names': names, 'pne': pne, 'extra': extra}
         b, _ = fcswriter.build(spec)
         path = os.path.join(self.dir, name)
         with open(path, 'wb') as f:
